@@ -251,6 +251,38 @@ impl<'tcx> Dumper<'tcx> {
                 Some(self.scalar_int_json(si, ty))
             }
             ConstValue::ZeroSized => Some("\"zst\"".to_string()),
+            ConstValue::Scalar(mir::interpret::Scalar::Ptr(ptr, _)) => {
+                // &[u8; N] byte-string constants (b"\n", format_args! templates)
+                if let ty::Ref(_, inner, _) = ty.kind() {
+                    if let ty::Array(elem, len) = inner.kind() {
+                        if *elem == self.tcx.types.u8 {
+                            if let Some(n) = len.try_to_target_usize(self.tcx) {
+                                let (prov, offset) = ptr.prov_and_relative_offset();
+                                if let Some(rustc_middle::mir::interpret::GlobalAlloc::Memory(alloc)) =
+                                    self.tcx.try_get_global_alloc(prov.alloc_id())
+                                {
+                                    let start = offset.bytes() as usize;
+                                    let end = start + n as usize;
+                                    let a = alloc.inner();
+                                    if end <= a.len() {
+                                        let bytes = a.inspect_with_uninit_and_ptr_outside_interpreter(start..end);
+                                        let mut o = String::from("{\"bytes\":[");
+                                        for (i, b) in bytes.iter().enumerate() {
+                                            if i > 0 {
+                                                o.push(',');
+                                            }
+                                            let _ = write!(o, "{}", b);
+                                        }
+                                        o.push_str("]}");
+                                        return Some(o);
+                                    }
+                                }
+                            }
+                        }
+                    }
+                }
+                None
+            }
             ConstValue::Slice { .. } => {
                 if let Some(bytes) = v.try_get_slice_bytes_for_diagnostics(self.tcx) {
                     match std::str::from_utf8(bytes) {
